@@ -108,10 +108,12 @@ def main():
     rc, out = run_demo(patched, vdir, meta)
     res["demo_fails_patched"] = (rc not in (0, None))
     env = dict(ENV, VERIF_REPO=patched)
-    rc, out = run(["/verif/check", pid, tier], "/verif", 3000, env)
+    check_pid = meta.get("check_with", pid)  # a change filed under one property may be decided by another one's check
+    res["checked_with"] = check_pid
+    rc, out = run(["/verif/check", check_pid, tier], "/verif", 3000, env)
     res["check_exit"] = rc
     res["check_keys"] = [l.strip()[5:205] for l in out.splitlines() if l.strip().startswith("key:")][:3]
-    res["check_summary"] = [l[:200] for l in out.splitlines() if l.startswith("[" + pid) or l.startswith("INCONCLUSIVE") or l.startswith("BROKEN")][:3]
+    res["check_summary"] = [l[:200] for l in out.splitlines() if l.startswith("[" + check_pid) or l.startswith("INCONCLUSIVE") or l.startswith("BROKEN")][:3]
     if not keep:
         shutil.rmtree(patched, ignore_errors=True)
         suf = hashlib.md5((patched + "\n").encode()).hexdigest()[:10]
